@@ -3,10 +3,13 @@
    layout ::= size[p],size[p],...          ('p' = padding attr)
    op ::= C <off> <len> <w:0|1> <pos> <datahex|-> <rpos> <rn>     create_chunk(off,len) ...
         | I <idx> <w> <pos> <datahex|-> <rpos> <rn>               create_chunk_index(idx) ...
-        | M <idx> | V <idx> <off> <len> | Q | D
+        | M <idx> | V <idx> <off> <len> | Q | D | R | U | S <idx> | P <file> <off> <len>
+   A leading token T marks a loader-driven case (entries size[p]@path); the model ignores paths.
    One output line per case: the op outputs joined by " | ". *)
 let parse_layout s =
   List.map (fun t ->
+    (* loader-driven cases carry "@path" per entry: the model's layout is the torrent-order list *)
+    let t = match String.index_opt t '@' with Some i -> String.sub t 0 i | None -> t in
     let n = String.length t in
     if n > 0 && t.[n - 1] = 'p' then (n_of_string (String.sub t 0 (n - 1)), true)
     else (n_of_string t, false)) (String.split_on_char ',' s)
@@ -26,6 +29,10 @@ let parse_op = function
   | ["V"; idx; off; len] -> OpValid (n_of_string idx, n_of_string off, n_of_string len)
   | ["Q"] -> OpQuery
   | ["D"] -> OpDump
+  | ["R"] -> OpReopen
+  | ["U"] -> OpUpdate
+  | ["S"; idx] -> OpSetBit (n_of_string idx)
+  | ["P"; i; off; len] -> OpPread (nat_of_int (int_of_string i), n_of_string off, n_of_string len)
   | _ -> failwith "op"
 
 let sn = string_of_n
@@ -48,9 +55,13 @@ let show_out = function
         (commas (fun (f, k) -> Printf.sprintf "%s:%s:%s:%s:%s" (sn f.f_off) (sn f.f_size) (sn f.f_r1) (sn f.f_r2) (sn k)) files)
         (sn cc) (optn cb) (optn left)
   | OutDump imgs -> "dump=" ^ commas (function None -> "P" | Some b -> hex_of_bytes b) imgs
+  | OutUpd ok -> if ok then "upd=ok" else "upd=ERR:internal"
+  | OutSet ok -> if ok then "set=1" else "set=0"
+  | OutPread (None, _) -> "pread=none"
+  | OutPread (Some sz, b) -> "pread=" ^ sn sz ^ ":" ^ hex_of_bytes b
 
 let () = each_line (fun line ->
-  match split_ws line with
+  match (match split_ws line with "T" :: r -> r | r -> r) with
   | cs :: lay :: rest ->
       let ops = List.map parse_op (split_ops rest [] []) in
       let outs = run_case (n_of_string cs) (parse_layout lay) ops in
